@@ -1363,7 +1363,7 @@ fn first_raw(state: u64, dim: usize) -> Vec<f64> {
 }
 
 const INSIDE_TOL: f64 = 1e-6; // the code accepts on the f32-rounded |v|^2 <= 1; exact |v|^2 may exceed 1 by a few f32 ulps
-const UNIT_TOL: f64 = 1e-3; // DESIGN: |v| = 1 +- 1e-3 (covers the approximate recip_sqrt backends)
+const UNIT_TOL: f64 = 2e-6; // measured 1.4e-7 with std and libm (the mm backend, whose recip_sqrt is good to 2e-3 only, is C20's subject)
 
 fn check_shape(c: &ShapeCase, obs: &mut Obs) -> Check {
     let mut g = Xorshift64(c.state);
@@ -1398,7 +1398,7 @@ fn check_shape(c: &ShapeCase, obs: &mut Obs) -> Check {
         }
         let err = (l2.sqrt() - 1.0).abs();
         ensure!(err <= UNIT_TOL, "not-unit-length", "{kind}: sample {v:?} on state {:#018x} has length {} (|len-1| = {err:.3e} > {UNIT_TOL})", c.state, l2.sqrt());
-        obs.max("circle/sphere | |v| - 1 |  (tolerance 1e-3)", err);
+        obs.max("circle/sphere | |v| - 1 |  (tolerance 2e-6)", err);
         if raw_l2 > 1.0 {
             obs.class("raw draw outside the unit ball (corner region), normalised");
         }
@@ -1936,7 +1936,7 @@ fn check_comp(c: &CompCase, obs: &mut Obs) -> Check {
 pub fn run(cx: &mut Ctx) {
     cx.assume("float ranges have lo < hi, both finite, and a finite f32 width hi-lo (an overflowing width is outside the family the property names)");
     cx.assume("integer ranges have 1 <= hi-lo <= i32::MAX ('whenever the range width is representable'); wider ones are run without any assertion and counted as excluded");
-    cx.assume("disk/ball: 'inside' is asserted on the exact |v|^2 with 1e-6 slack (the code accepts on the f32-rounded |v|^2 <= 1, the documented closed ball); circle/sphere: | |v| - 1 | <= 1e-3");
+    cx.assume("disk/ball: 'inside' is asserted on the exact |v|^2 with 1e-6 slack (the code accepts on the f32-rounded |v|^2 <= 1, the documented closed ball); circle/sphere: | |v| - 1 | <= 2e-6");
     cx.assume("'exhaustive' for uniform-f32/bernoulli means: every bit pattern the float sample consumes (2^23 mantissas), for each range / probability of the listed family; the family itself is a sample of all ranges");
     cx.assume("the step's agreement with the xorshift (13,7,17) inverse is asserted because the crate's doc examples pin the output sequence (from_seed(123) -> 133101616827, ...)");
     let info = run_generator(cx);
